@@ -1382,6 +1382,100 @@ fn tail_call_pass() -> Result<(u64, Vec<(Vec<String>, String, String)>), String>
     Ok((pairs.len() as u64, fails))
 }
 
+/// Restarted sessions: after a runtime error the CLI builds a fresh Repl on the same, used
+/// Environment. Whatever the first session did, the restarted one must behave like a session on
+/// a fresh environment: for every first session of <= 2 lines of RESTART_LINES followed by a
+/// failing line, and every second session of <= 3 lines, each line's observation and the final
+/// variables equal those of the second session alone. Returns (pairs, failures).
+const RESTART_LINES: &[&str] = &["a = 1", "b = 2", "c = 0", "d = 2", "[1, 2, 0]", "e = [0xaa, 0x01] __binary_concat__", "h = A[2, \"s\"]"];
+const RESTART_ERROR_LINE: &str = "[1, 0] __integer_divide__";
+
+fn restart_pass(thorough: bool) -> Result<(u64, Vec<(Vec<String>, String, String)>), String> {
+    let seqs = |max: usize| -> Vec<Vec<&'static str>> {
+        let mut out: Vec<Vec<&'static str>> = vec![vec![]];
+        let mut layer: Vec<Vec<&'static str>> = vec![vec![]];
+        for _ in 0..max {
+            let mut next = vec![];
+            for p in &layer {
+                for l in RESTART_LINES {
+                    let mut q = p.clone();
+                    q.push(*l);
+                    next.push(q);
+                }
+            }
+            out.extend(next.iter().cloned());
+            layer = next;
+        }
+        out
+    };
+    let firsts = seqs(2);
+    let seconds: Vec<Vec<&'static str>> = seqs(if thorough { 4 } else { 3 }).into_iter().filter(|s| !s.is_empty()).collect();
+    // reference: each second session on a fresh environment
+    let reference: Vec<Result<(Vec<Obs>, String), String>> = seconds
+        .par_iter()
+        .map(|lines| {
+            crate::sim::system::install_panic_recorder();
+            let mut s = Sess::new()?;
+            let obs: Vec<Obs> = lines.iter().map(|l| s.eval(l)).collect();
+            let vars = s.snapshot().map(|x| format!("{:?}", x.vars)).unwrap_or_else(|_| "<unreadable>".into());
+            s.close();
+            Ok((obs, vars))
+        })
+        .collect();
+    let mut refs = vec![];
+    for r in reference {
+        refs.push(r?);
+    }
+    let results: Vec<Result<Vec<(Vec<String>, String, String)>, String>> = firsts
+        .par_iter()
+        .map(|first| {
+            crate::sim::system::install_panic_recorder();
+            let mut fails = vec![];
+            for (k, second) in seconds.iter().enumerate() {
+                let mut s = Sess::new()?;
+                for l in first {
+                    s.eval(l);
+                }
+                let e = s.eval(RESTART_ERROR_LINE);
+                if !matches!(e, Obs::Runtime(_)) {
+                    s.close();
+                    return Err(format!("the failing line of the restart pass yields {}", e.show()));
+                }
+                if let Some(inner) = s.s.as_mut() {
+                    inner.restart_repl()?;
+                }
+                s.last = "[]".into();
+                let obs: Vec<Obs> = second.iter().map(|l| s.eval(l)).collect();
+                let vars = s.snapshot().map(|x| format!("{:?}", x.vars)).unwrap_or_else(|_| "<unreadable>".into());
+                s.close();
+                let (ro, rv) = &refs[k];
+                if &obs != ro || &vars != rv {
+                    let mut hist: Vec<String> = first.iter().map(|l| l.to_string()).collect();
+                    hist.push(RESTART_ERROR_LINE.to_string());
+                    hist.push("<restart>".to_string());
+                    hist.extend(second.iter().map(|l| l.to_string()));
+                    fails.push((
+                        hist,
+                        format!("{:?} / {}", obs.iter().map(|o| o.show()).collect::<Vec<_>>(), vars),
+                        format!("{:?} / {} (the same lines on a fresh environment)", ro.iter().map(|o| o.show()).collect::<Vec<_>>(), rv),
+                    ));
+                    if fails.len() >= 3 {
+                        break;
+                    }
+                }
+            }
+            Ok(fails)
+        })
+        .collect();
+    let mut fails = vec![];
+    for r in results {
+        fails.extend(r?);
+    }
+    // shortest first
+    fails.sort_by_key(|f| f.0.len());
+    Ok(((firsts.len() * seconds.len()) as u64, fails))
+}
+
 /// Clause 2 over the whole table: a history with rejected lines must end in the same observable
 /// state (and, if its last line was accepted, the same last result) as the history without them —
 /// which is itself a member of the universe.
@@ -1763,6 +1857,15 @@ fn run_inner(tier: Tier) -> Result<Report, String> {
             violations.push(v);
         }
     }
+    // restarted sessions (differential; see restart_pass)
+    let (restart_pairs, restart_fails) = restart_pass(thorough)?;
+    for (lines, observed, expected) in restart_fails.into_iter().take(8) {
+        violations.push(Violation {
+            signature: signature("restarted-session", "", &lines),
+            summary: format!("history {:?}: observed {} — expected {}", lines, observed, expected),
+            replay: json!({"engine": "c11", "kind": "restarted-session", "lines": lines}),
+        });
+    }
     // top-level tail-call lines (differential; see tail_call_pass)
     let (tail_pairs, tail_fails) = tail_call_pass()?;
     for (lines, observed, expected) in tail_fails.into_iter().take(12) {
@@ -1815,6 +1918,7 @@ fn run_inner(tier: Tier) -> Result<Report, String> {
         "rejected_line_checks": {"histories_with_rejected_lines_compared_to_their_clean_history": rej_checked, "clean_history_not_visited": rej_missing},
         "flow_probes_at_leaves": a.out.probes,
         "tail_call_line_pairs": tail_pairs,
+        "restarted_session_pairs": restart_pairs,
         "variable_value_comparisons": {"compared_with_one_piece": a.out.counters.vars_compared + b.counters.vars_compared,
             "one_piece_probe_program_not_runnable": a.out.counters.vars_not_comparable + b.counters.vars_not_comparable},
         "not_judged": {
@@ -1850,6 +1954,26 @@ pub fn replay(replay: &J) -> Result<bool, String> {
         .iter()
         .filter_map(|l| l.as_str().map(String::from))
         .collect();
+    if replay["kind"].as_str() == Some("restarted-session") {
+        let cut = lines.iter().position(|l| l == "<restart>").ok_or("no <restart> marker")?;
+        let (first, second) = (&lines[..cut], &lines[cut + 1..]);
+        let mut s = Sess::new()?;
+        for l in first {
+            s.eval(l);
+        }
+        if let Some(inner) = s.s.as_mut() {
+            inner.restart_repl()?;
+        }
+        let obs: Vec<Obs> = second.iter().map(|l| s.eval(l)).collect();
+        let vars = s.snapshot().map(|x| format!("{:?}", x.vars)).unwrap_or_else(|_| "<unreadable>".into());
+        s.close();
+        let mut r = Sess::new()?;
+        let ro: Vec<Obs> = second.iter().map(|l| r.eval(l)).collect();
+        let rv = r.snapshot().map(|x| format!("{:?}", x.vars)).unwrap_or_else(|_| "<unreadable>".into());
+        r.close();
+        println!("  restarted: {:?} / {}\n  fresh:     {:?} / {}", obs.iter().map(|o| o.show()).collect::<Vec<_>>(), vars, ro.iter().map(|o| o.show()).collect::<Vec<_>>(), rv);
+        return Ok(obs != ro || vars != rv);
+    }
     if replay["kind"].as_str() == Some("tail-call-line") {
         // lines = [a, TAIL_DEF, TAIL_LINE, b]
         if lines.len() != 4 {
